@@ -30,7 +30,13 @@ RULE = ("random programs P ::= skip | raise | use sym | seq | scope units P | at
         "and function arguments, the unit of the node holding a numerical expression, option lines and !options arrays, "
         "!condition and @case literals, modification and definition units, chained $unit) with the value oracle "
         "[name] = value x magnitude of its definition (accept and reject variants); "
-        "non-trivial = at least one nested scope or one injected fault (programs), at least one $unit (DIP); "
+        "back-to-back scopes of equal size with different symbols and nothing evaluated in between (also two DIP parses); "
+        "histories of explicit UnitEnvironment(...) / close() with overlapping lifetimes closed in any order "
+        "(first-opened-first, arbitrary), shared and own conversion classes, failing constructions; "
+        "the public NumericalSolver / LogicalSolver / TemplateSolver used directly on a parsed environment with custom "
+        "units as plain objects, as context managers, reused for several with-blocks and with raising expressions; "
+        "non-trivial = at least one nested scope or one injected fault (programs), at least one $unit (DIP), "
+        "at least one close that is not LIFO (histories); "
         "distinct = canonical JSON of the program / text")
 ASSUMPTIONS = [
     "symbols passed to `use` are plain alphabetic custom symbols of which no other table key is a proper suffix "
@@ -41,8 +47,10 @@ ASSUMPTIONS = [
     "exceptions are raised only where the code can raise (duplicate test, item access on the definition, "
     "Quantity evaluation, check_unique_symbols, body statements); asynchronous exceptions between "
     "`UNIT_TYPES.insert` / `new_types.append` or `UNIT_STANDARD.append` / `new_units.append` are outside the model",
-    "bodies do not delete or re-register units behind the environment's back; every environment is closed once "
-    "(with-statement or a single close())",
+    "bodies do not delete or re-register units behind the environment's back; every environment is closed at most "
+    "once (with-statement or a single close(), in any order relative to the other environments)",
+    "solver classes used as plain objects: the tables are judged after each statement group (construction, calls, "
+    "object dropped); values by the same oracle and control as the DIP texts",
     "DIP texts are judged by the table snapshots and, for the assignment and position families, by the value oracle "
     "(a custom unit means value x magnitude of its definition; magnitudes are powers of two times 1 or 1000 m and values "
     "small integers, so expected values are exact and comparisons are far from the tolerance); "
@@ -50,7 +58,9 @@ ASSUMPTIONS = [
 ]
 EXPLANATION = ("theorems: for every program (any nesting, any fault placement, any body exceptions) the model's "
                "process-wide tables after the run equal the tables before it; __init__ is all-or-nothing; symbols of a "
-               "constructed environment resolve to the rows defined; symbols not in the table before do not resolve after. "
+               "constructed environment resolve to the rows defined; symbols not in the table before do not resolve after; "
+               "for explicit open/close in ANY order the tables always are the initial ones plus what the still-open "
+               "environments registered, and equal the initial ones once all are closed. "
                "Correspondence: the real UnitEnvironment / DIP on the real tables in a fresh subprocess.")
 
 HERE = Path(__file__).resolve()
@@ -306,6 +316,102 @@ class Worker:
             ok = False
         return self.finish({"ok": ok, "events": ev, "qvals": qvals, "mismatch": mism})
 
+    # ---- histories: explicit UnitEnvironment(...) / close() with overlapping lifetimes
+    def case_hist(self, req):
+        ev, qvals, mism = [], {}, []
+        opens, syms = [], []
+        n0 = len(self.s0["keys"])
+        for op in req["ops"]:
+            if op[0] == "opn":
+                units = self.build_units(op[1], qvals)
+                try:
+                    env = self.UnitEnvironment(units)
+                except BaseException:
+                    ev.append(["opened", False, self.gsum()])
+                    continue
+                opens.append(env)
+                syms.append([s for s, _ in op[1]])
+                ev.append(["opened", True, self.gsum()])
+            elif op[0] == "cls":
+                if op[1] >= len(opens):
+                    ev.append("noop")
+                    continue
+                env = opens.pop(op[1])
+                syms.pop(op[1])
+                try:
+                    env.close()
+                    ok = True
+                except BaseException:
+                    ok = False
+                ev.append(["closed", ok, self.gsum()])
+            else:
+                s = op[1]
+                expected = s in self.s0_rows or any(s in a for a in syms)
+                try:
+                    self.Quantity(1, s)
+                    ok = True
+                except Exception:
+                    ok = False
+                ev.append(["used", s, ok])
+                if ok != expected:
+                    mism.append(["usable" if expected else "outside", s])
+            # specification, step by step: the extra keys are exactly the symbols of the open environments
+            extra = list(self.S.UNIT_STANDARD.keys())[n0:]
+            if extra != [x for a in syms for x in a] and not any(m[0] == "step" for m in mism):
+                mism.append(["step", "after op %d %s: extra keys %s, open environments registered %s" %
+                             (len(ev) - 1, op[0], extra, syms)])
+        res = {"events": ev, "open": len(opens), "qvals": qvals, "mismatch": mism}
+        return self.finish(res)
+
+    # ---- the public solver classes used directly on a parsed environment
+    def case_solver(self, req):
+        from scinumtools.dip import DIP
+        from scinumtools.dip import solvers as SV
+        classes = {"numerical": SV.NumericalSolver, "logical": SV.LogicalSolver, "template": SV.TemplateSolver}
+        res = {"steps": []}
+        try:
+            with DIP() as p:
+                p.add_string(req["text"])
+                env = p.parse()
+        except Exception:
+            res["parse_ok"] = False
+            return self.finish(res)
+        res["parse_ok"] = True
+        res["after_parse"] = self.gsum()
+
+        def call(s, c):
+            r = s.solve(c[0], c[1]) if c[1] is not None else s.solve(c[0])
+            r = getattr(r, "value", r)
+            if isinstance(r, (bool,)) or type(r).__name__ == "bool_":
+                return bool(r)
+            if isinstance(r, str):
+                return r
+            return float(r)
+        for st in req["steps"]:
+            cls = classes[st["cls"]]
+            vals = []
+            ok = True
+            try:
+                if st["mode"] == "plain":
+                    s = cls(env)
+                    for c in st["calls"]:
+                        vals.append(call(s, c))
+                    del s
+                elif st["mode"] in ("with", "raise"):
+                    with cls(env) as s:
+                        for c in st["calls"]:
+                            vals.append(call(s, c))
+                elif st["mode"] == "reuse":
+                    s = cls(env)
+                    for c in st["calls"]:
+                        with s as t:
+                            vals.append(call(t, c))
+                    del s
+            except (Exception, _Interrupt, KeyboardInterrupt, SystemExit):
+                ok = False
+            res["steps"].append({"ok": ok, "values": vals, "after": self.gsum()})
+        return self.finish(res)
+
     # ---- DIP
     def case_dip(self, req):
         from scinumtools.dip import DIP
@@ -360,6 +466,11 @@ class Worker:
                     Path(tmp, name).write_text(content)
                 text = text.replace("@DIR@", tmp)
             try:
+                for extra_text in req.get("before_texts") or []:
+                    # an earlier, complete DIP parse in the same case; nothing is evaluated in between
+                    with DIP() as p0:
+                        p0.add_string(extra_text)
+                        p0.parse()
                 with DIP() as p:
                     if req.get("preset_fault"):
                         # a unit the caller put into the DIP environment whose definition object raises a
@@ -418,6 +529,10 @@ class Worker:
                     r = self.case_prog(req)
                 elif req["kind"] == "dip":
                     r = self.case_dip(req)
+                elif req["kind"] == "hist":
+                    r = self.case_hist(req)
+                elif req["kind"] == "solver":
+                    r = self.case_solver(req)
                 else:
                     r = {"error": "unknown kind"}
             except BaseException as e:   # harness problem, not a verdict
@@ -671,16 +786,40 @@ class Gen:
             return "skip"
         return stmts[0] if len(stmts) == 1 else ["seq"] + stmts
 
+    def back_to_back(self):
+        """Repeated scopes in direct succession: the same number of units, different symbols, and NO unit
+        expression evaluated between them (no `use` at base table size, no Quantity-valued definitions).
+        Inside each scope its own symbols are used and the previous scope's symbols must be unknown."""
+        r = self.rng
+        n = r.randint(1, 2)
+        k = r.randint(2, 4)
+        customs = r.sample(self.uni["customs"], n * k)
+        top, prev = [], []
+        for i in range(k):
+            mine = customs[i * n:(i + 1) * n]
+            units = [[s, self.good_def(False)] for s in mine]
+            body = [["use", s] for s in mine] + [["attempt", ["use", s]] for s in prev[:1]]
+            if r.random() < 0.3:
+                body.append("raise")
+            sc = ["scope", units, body[0] if len(body) == 1 else ["seq"] + body]
+            top.append(["attempt", sc])
+            prev = mine
+        self.kinds.append("back-to-back")
+        return ["seq"] + top
+
     def program(self):
         r = self.rng
+        if r.random() < 0.15:
+            return self.back_to_back()
         customs = r.sample(self.uni["customs"], min(len(self.uni["customs"]), r.randint(4, 9)))
         top = []
         for _ in range(r.randint(1, 3)):
             sc, mine = self.scope(0, [], customs)
             top.append(["attempt", sc] if r.random() < 0.85 else sc)
-            for s in mine[:2]:
-                if s in customs:
-                    top.append(["attempt", ["use", s]])
+            if r.random() < 0.6:          # otherwise the next scope follows with nothing evaluated in between
+                for s in mine[:2]:
+                    if s in customs:
+                        top.append(["attempt", ["use", s]])
         return top[0] if len(top) == 1 else ["seq"] + top
 
 
@@ -1260,13 +1399,22 @@ def dip_stream(ctx, worker, g0, count):
             c.pop("control", None)
             c["symbols"] = c.get("symbols", []) + ["[pre]"]
             cases.append(c)
+    # two complete DIP parses one right after the other: the same number of custom units, different names,
+    # defined from injected plain numbers so that nothing is evaluated while the tables have their base size
+    for _ in range(6 if count < 1000 else 24):
+        na, nb = ctx.rng.sample(["len", "wid", "x", "yy", "q_1", "Zz", "uA"], 2)
+        v, k = ctx.rng.choice([2, 3, 5]), ctx.rng.choice([1, 2, 4])
+        t = "size float = %d\n$unit %%s = {?size}\na float = %d [%%s]\n" % (v, k)
+        cases.append({"before_texts": [t % (na, na)], "text": t % (nb, nb), "symbols": ["[%s]" % na, "[%s]" % nb],
+                      "expect_ok": True, "expect": {"a": [k, "[%s]" % nb]}, "mode": "repeat-parse",
+                      "control": {"text": t % (nb, nb), "expect_ok": True, "expect": {"a": [k, "[%s]" % nb]}}})
     for _ in range(max(0, count - per_mode * len(POSITION_MODES))):
         cases.append(gen_dip_positions(ctx.rng) if ctx.rng.random() < 0.3 else gen_dip(ctx.rng))
     seen_sig = set()
     traced = []
     for c in cases:
         r = worker.ask({"kind": "dip", "text": c["text"], "symbols": c.get("symbols", []), "outer": c.get("outer"),
-                        "files": c.get("files"), "preset_fault": c.get("preset_fault"), "preset_fault": c.get("preset_fault")})
+                        "files": c.get("files"), "preset_fault": c.get("preset_fault"), "before_texts": c.get("before_texts"), "preset_fault": c.get("preset_fault")})
         ctx.case(["dip", c["text"], bool(c.get("outer"))], "$unit" in c["text"],
                  {"dip": c["text"], "outer": bool(c.get("outer"))})
         ctx.count("dip.mode." + c.get("mode", "corpus"))
@@ -1277,7 +1425,7 @@ def dip_stream(ctx, worker, g0, count):
         ctx.count("dip.parse_ok" if r["ok"] else "dip.parse_err")
         ctx.count("dip.scopes_opened", sum(1 for t in r["trace"] if t[0] == "init"))
         replay = {"stream": "dip", "text": c["text"], "outer": c.get("outer"), "symbols": c.get("symbols", []),
-                  "files": c.get("files"), "preset_fault": c.get("preset_fault"),
+                  "files": c.get("files"), "preset_fault": c.get("preset_fault"), "before_texts": c.get("before_texts"),
                   "impl_ok": r["ok"], "impl_final": r["final"], "clean": clean}
         sigs = []
         if r["final"] != clean or not r["deep_same"]:
@@ -1311,7 +1459,8 @@ def dip_stream(ctx, worker, g0, count):
             # minimal replay: drop lines of the text while the same deviation remains
             def fails(lines, sig=sig, c=c):
                 rr = worker.ask({"kind": "dip", "text": "\n".join(lines) + "\n", "symbols": c.get("symbols", []),
-                                 "outer": c.get("outer"), "files": c.get("files"), "preset_fault": c.get("preset_fault")})
+                                 "outer": c.get("outer"), "files": c.get("files"), "preset_fault": c.get("preset_fault"),
+                                 "before_texts": c.get("before_texts")})
                 if "error" in rr:
                     return False
                 if sig.startswith("leak:dip"):
@@ -1359,6 +1508,219 @@ def dip_stream(ctx, worker, g0, count):
                              (json.dumps(observed)[:500], json.dumps(mev)[:500]))
 
 
+# ---------------------------------------------------------------- histories (overlapping lifetimes)
+def gen_hist(rng, uni):
+    customs = rng.sample(uni["customs"], min(len(uni["customs"]), 10))
+    k = rng.randint(2, 4)
+    shared = rng.choice(TYPE_POOL)
+    pending = []
+    for i in range(k):
+        units = []
+        for _ in range(rng.randint(1, 2)):
+            d = {"magnitude": repr(rng.choice(MAGS)), "dimensions": json.dumps(rng.choice(DIMS))}
+            x = rng.random()
+            if x < 0.45:
+                d["definition"] = {"ty": TYPE_POOL[i % len(TYPE_POOL)]}      # this environment's own class
+            elif x < 0.6:
+                d["definition"] = {"ty": shared}                             # a class several environments name
+            elif x < 0.7:
+                d["definition"] = {"ty": rng.choice(["StandardUnitType", "TemperatureUnitType", "LogarithmicUnitType"])}
+            if rng.random() < 0.2:
+                d["prefixes"] = rng.choice([True, ["k", "M"]])
+            units.append([customs.pop(), {"dict": d}])
+        if rng.random() < 0.15:      # a construction that raises part-way
+            units.insert(rng.randint(0, len(units)), [rng.choice(uni["existing"]), {"dict": {"magnitude": "1", "dimensions": json.dumps(DIMS[0])}}])
+        pending.append(units)
+    ops, nopen, nopn, seen = [], 0, 0, []
+    while pending or nopen:
+        x = rng.random()
+        if pending and (x < 0.5 or not nopen):
+            units = pending.pop(0)
+            ops.append(["opn", units])
+            nopn += 1
+            if all(sym not in uni["existing"] for sym, _ in units):
+                nopen += 1
+                seen += [sym for sym, _ in units]
+        elif nopen and x < 0.85:
+            i = 0 if rng.random() < 0.5 else rng.randrange(nopen)       # first-opened-first, or any
+            ops.append(["cls", i])
+            nopen -= 1
+        elif seen:
+            ops.append(["use", rng.choice(seen)])
+    ops += [["cls", 0]] * nopn          # whatever the outcome of the constructions: everything is closed
+    for sym in seen[:2]:
+        ops.append(["use", sym])
+    return ops
+
+
+def hist_stream(ctx, worker, g0, count):
+    uni = universe(g0)
+    clean = clean_sum(g0)
+    ta = {"dict": {"magnitude": "3", "dimensions": json.dumps(DIMS[0]), "definition": {"ty": "T1"}}}
+    tb = {"dict": {"magnitude": "5", "dimensions": json.dumps(DIMS[0]), "definition": {"ty": "T2"}}}
+    hists = [
+        # open A, open B, close A, close B  (the documented explicit close(), lifetimes overlap)
+        [["opn", [["qx", ta]]], ["opn", [["zq", tb]]], ["cls", 0], ["use", "zq"], ["cls", 0], ["use", "qx"], ["use", "zq"]],
+        [["opn", [["qx", ta]]], ["opn", [["zq", ta]]], ["opn", [["jq", tb]]], ["cls", 1], ["cls", 0], ["use", "jq"], ["cls", 0]],
+    ]
+    for _ in range(count):
+        hists.append(gen_hist(ctx.rng, uni))
+    results = [worker.ask({"kind": "hist", "ops": h}) for h in hists]
+    G = {"keys": g0["keys"], "data": g0["data"], "types": g0["types"], "prefixes": g0["prefixes"]}
+    model = []
+    B = 100
+    for ans in ctx.driver.ask_many([{"p": "C09", "k": "hist", "G": G, "hists": hists[i:i + B]} for i in range(0, len(hists), B)]):
+        if "ok" not in ans:
+            ctx.disagreement("hist", {"driver": ans}, "driver error")
+            return
+        model += ans["ok"]
+    seen_sig = set()
+    for h, r, m in zip(hists, results, model):
+        # non-trivial: some environment is closed while a later-opened one is still open
+        nontriv, depth = False, 0
+        for op in h:
+            if op[0] == "opn":
+                depth += 1
+            elif op[0] == "cls" and depth:
+                nontriv = nontriv or op[1] < depth - 1
+                depth -= 1
+        ctx.case(["hist", h], nontriv, {"hist": h} if len(json.dumps(h)) < 500 else None)
+        if "error" in r:
+            ctx.notes.append("C09 worker error on a history: %s" % r["error"][:300])
+            ctx.count("hist.worker_error")
+            continue
+        ctx.count("hist.ops", len(h))
+        ctx.count("hist.non_lifo" if nontriv else "hist.lifo")
+        sigs = []
+        for kind, what in r["mismatch"]:
+            if kind == "step":
+                sigs.append(("overlap:step", "explicit open/close in any order: " + what))
+            elif kind == "usable":
+                sigs.append(("overlap:usable", "unit %r of a still-open environment is unknown to Quantity" % what))
+            else:
+                sigs.append(("overlap:outside", "unit %r of no open environment is known to Quantity" % what))
+        if r["open"] == 0 and (r["final"] != clean or not r["deep_same"]):
+            sigs.append(("overlap:final:" + what_leaked(clean, r["final"]),
+                         "every environment has been closed (not in LIFO order) but the tables differ from the initial ones: %s" %
+                         diff_text(clean, r["final"])))
+        for sig, what in sigs[:1]:
+            if sig in seen_sig:
+                continue
+            seen_sig.add(sig)
+
+            def fails(ops, sig=sig):
+                rr = worker.ask({"kind": "hist", "ops": ops})
+                if "error" in rr:
+                    return False
+                if sig.startswith("overlap:final"):
+                    return rr["open"] == 0 and (rr["final"] != clean or not rr["deep_same"])
+                want = {"overlap:step": "step", "overlap:usable": "usable", "overlap:outside": "outside"}[sig]
+                return any(k == want for k, _ in rr["mismatch"])
+            from harness.util import shrink_list
+            small = shrink_list(h, fails, max_steps=80)
+            rs = worker.ask({"kind": "hist", "ops": small})
+            ctx.violation(sig, what, {"stream": "hist", "ops": small, "impl_events": rs.get("events"),
+                                      "impl_final": rs.get("final"), "clean": clean})
+        if not m["restored"] and m["open"] == 0:
+            ctx.disagreement("hist", {"ops": h}, "the Lean model does not restore the tables (contradicts C09_restored_any_order)")
+        mine = {"open": r["open"], "events": r["events"], "final": r["final"]}
+        theirs = {"open": m["open"], "events": m["events"], "final": m["final"]}
+        if mine != theirs:
+            ctx.disagreement("hist", {"ops": h}, "impl %s model %s" % (json.dumps(mine)[:600], json.dumps(theirs)[:600]))
+
+
+# ---------------------------------------------------------------- the public solver classes, used directly
+def gen_solver_case(rng):
+    n0, n1 = rng.sample(["x", "yy", "len", "wid", "q_1", "Zz"], 2)
+    v0, (u0, f0) = rng.choice([2, 4, 0.5]), rng.choice([("m", 1.0), ("km", 1000.0)])
+    v1, (u1, f1) = rng.choice([2, 8, 0.25]), rng.choice([("m", 1.0), ("km", 1000.0)])
+    P, K, J = rng.choice([1, 3, 5]), rng.choice([1, 2, 6]), rng.choice([2, 3, 7])
+    modes = ["plain", "with", "reuse", "raise"]
+
+    def build(c0, m0, c1, m1):
+        text = "\n".join(["$unit %s = %s %s" % (n0, _num(v0), u0), "$unit %s = %s %s" % (n1, _num(v1), u1),
+                           "a float = %d %s" % (P, c0), "w float = 4 m"]) + "\n"
+        num = [["{?a} + %d %s" % (K, c0), "m", (P + K) * m0], ["%d %s" % (J, c0), c1, J * m0 / m1],
+               ["{?a} * 2", "km", P * m0 * 2 / 1000.0], ["{?w} + %d %s" % (K, c1), "m", 4 + K * m1]]
+        log = [["{?a} == %s m" % _num(P * m0), None, True], ["{?a} > %d %s" % (4 * P, c0), None, False],
+               ["{?w} < %s %s" % (_num(8 / m1 * 2), c1), None, True]]
+        tpl = [["a={{?a}} w={{?w}}", None, "a=%s w=4.0" % float(P)]]
+        steps = []
+        for cls, calls, bad in (("numerical", num, ["1 [nope] + 1 m", "m", None]), ("logical", log, ["{?a} > 1 [nope]", None, None]),
+                                ("template", tpl, None)):
+            for mode in modes:
+                if mode == "raise":
+                    if bad:
+                        steps.append({"cls": cls, "mode": mode, "calls": [calls[0], bad], "expect_raise": True})
+                else:
+                    steps.append({"cls": cls, "mode": mode, "calls": calls})
+        return {"text": text, "steps": steps}
+    case = build("[%s]" % n0, v0 * f0, "[%s]" % n1, v1 * f1)
+    order = list(range(len(case["steps"])))
+    rng.shuffle(order)
+    case["steps"] = [case["steps"][i] for i in order]
+    ctl = build(u0, f0, u1, f1)
+    ctl["steps"] = [ctl["steps"][i] for i in order]
+    case["control"] = ctl
+    return case
+
+
+def solver_deviations(c, r, clean, rel_close):
+    """[(signature, what)] of one solver case result: leaks after each statement group, values."""
+    out = []
+    if not r.get("parse_ok"):
+        return [("usable:solver:parse", "the DIP text defining the custom units failed to parse")]
+    for st, rs in zip(c["steps"], r["steps"]):
+        tag = "%s:%s" % (st["cls"], st["mode"])
+        if rs["after"] != clean:
+            out.append(("leak:solver:" + tag, "after %sSolver used %s the process-wide tables differ from before: %s" %
+                        (st["cls"].capitalize(), {"plain": "as a plain object", "with": "as a context manager",
+                                                  "reuse": "as one object for several with-blocks",
+                                                  "raise": "with an expression that raises"}[st["mode"]],
+                         diff_text(clean, rs["after"]))))
+            continue
+        if st.get("expect_raise"):
+            continue
+        exp = [c2[2] for c2 in st["calls"]]
+        good = rs["ok"] and len(rs["values"]) == len(exp) and all(
+            (rel_close(a, b) if isinstance(b, float) and not isinstance(b, bool) and not isinstance(a, (bool, str)) else a == b)
+            for a, b in zip(rs["values"], [float(e) if isinstance(e, (int, float)) and not isinstance(e, bool) else e for e in exp]))
+        if not good:
+            out.append(("usable:solver:" + tag, "%sSolver (%s) on an environment with custom units: expected %s, got %s%s" %
+                        (st["cls"].capitalize(), st["mode"], exp, rs["values"], "" if rs["ok"] else " then an exception")))
+    return out
+
+
+def solver_stream(ctx, worker, g0, count):
+    from harness.util import rel_close
+    clean = clean_sum(g0)
+    seen_sig = set()
+    for _ in range(count):
+        c = gen_solver_case(ctx.rng)
+        r = worker.ask({"kind": "solver", "text": c["text"], "steps": c["steps"]})
+        ctx.case(["solver", c["text"], c["steps"]], True, {"solver_text": c["text"], "steps": [s["cls"] + ":" + s["mode"] for s in c["steps"]]})
+        if "error" in r:
+            ctx.notes.append("C09 worker error on a solver case: %s" % r["error"][:300])
+            ctx.count("solver.worker_error")
+            continue
+        ctx.count("solver.steps", len(r.get("steps", [])))
+        devs = solver_deviations(c, r, clean, rel_close)
+        if r["final"] != clean or not r["deep_same"]:
+            devs.append(("leak:solver:final", "tables differ after the solver case: %s" % diff_text(clean, r["final"])))
+        if devs and any(d[0].startswith("usable") for d in devs[:1]):
+            rc = worker.ask({"kind": "solver", "text": c["control"]["text"], "steps": c["control"]["steps"]})
+            cdev = [] if "error" in rc else solver_deviations(c["control"], rc, clean, rel_close)
+            if "error" in rc or any(d[0] == devs[0][0] for d in cdev):
+                ctx.count("solver.control_also_deviates")
+                devs = [d for d in devs if not d[0].startswith("usable")]
+        for sig, what in devs[:1]:
+            if sig in seen_sig:
+                continue
+            seen_sig.add(sig)
+            ctx.violation(sig, what, {"stream": "solver", "text": c["text"], "steps": c["steps"],
+                                      "impl": r.get("steps"), "clean": clean})
+
+
 def correspond(ctx):
     from harness import core
     thorough = ctx.tier == "thorough"
@@ -1371,6 +1733,8 @@ def correspond(ctx):
                 ctx.notes.append("row %s has a prefixes field outside the model: %s" % (k, row[4]))
         prog_stream(ctx, worker, g0, 3000 if thorough else 500)
         dip_stream(ctx, worker, g0, 1500 if thorough else 250)
+        hist_stream(ctx, worker, g0, 1200 if thorough else 200)
+        solver_stream(ctx, worker, g0, 120 if thorough else 20)
     finally:
         worker.close()
     # check_unique_symbols on the pristine tables: real code vs model
@@ -1387,17 +1751,28 @@ def correspond(ctx):
 
 def replay(ctx, payload):
     from harness import core
+    from harness.util import rel_close
     worker = WorkerProc(core.REPO)
     try:
         clean = clean_sum(worker.g0)
-        if payload.get("replay", {}).get("stream") == "dip":
-            rp = payload["replay"]
+        rp = payload.get("replay", {})
+        stream = rp.get("stream")
+        if stream == "dip":
             r = worker.ask({"kind": "dip", "text": rp["text"], "symbols": rp.get("symbols", []), "outer": rp.get("outer"),
-                            "files": rp.get("files"), "preset_fault": rp.get("preset_fault")})
+                            "files": rp.get("files"), "preset_fault": rp.get("preset_fault"),
+                            "before_texts": rp.get("before_texts")})
             print(json.dumps(r, indent=1)[:3000])
-            bad = r.get("final") != clean or not r.get("deep_same", True) or r.get("outside_known")
+            bad = r.get("final") != clean or not r.get("deep_same", True) or r.get("outside_known") or \
+                (payload.get("signature", "").startswith("usable") and not r.get("ok"))
+        elif stream == "hist":
+            r = worker.ask({"kind": "hist", "ops": rp["ops"]})
+            print(json.dumps(r, indent=1)[:3000])
+            bad = bool(r.get("mismatch")) or (r.get("open") == 0 and (r.get("final") != clean or not r.get("deep_same", True)))
+        elif stream == "solver":
+            r = worker.ask({"kind": "solver", "text": rp["text"], "steps": rp["steps"]})
+            print(json.dumps(r, indent=1)[:3000])
+            bad = bool(solver_deviations(rp, r, clean, rel_close)) or r.get("final") != clean
         else:
-            rp = payload["replay"]
             r = worker.ask({"kind": "prog", "prog": rp["prog"]})
             print(json.dumps(r, indent=1)[:3000])
             bad = bool(spec_violations(r, clean))
